@@ -4,7 +4,7 @@
 Require Extraction.
 Require Import ExtrOcamlBasic.
 From Coq Require Import NArith ZArith.
-From WMD Require Import Lib.Str Lib.PyChars Model.ContentType Model.Server Model.Etag Model.Decode Model.Pool.
+From WMD Require Import Lib.Str Lib.PyChars Model.ContentType Model.Server Model.Etag Model.Decode Model.Pool Model.Dmp.
 Extraction Language OCaml.
 Extraction "extracted.ml"
   ContentType.is_not_html ContentType.raise_if_not_diffable_html ContentType.ct_error_message
@@ -14,4 +14,5 @@ Extraction "extracted.ml"
   Etag.etag_preimage Etag.check_etag_header Etag.etag_of_hash Etag.py_repr_str
   Decode.extract_encoding Decode.decode_body
   Pool.run Pool.count_submits
+  Dmp.get_visible_text Dmp.compute_dmp_diff Dmp.html_source_diff Dmp.old_side Dmp.new_side
   Coq.Init.Nat.add BinInt.Z.add BinNat.N.to_nat.
